@@ -8,6 +8,7 @@ import (
 	"reflect"
 	"strings"
 	"time"
+	"unicode/utf8"
 
 	"github.com/high-moctane/mocrelay"
 	"verifkit/vsched"
@@ -179,6 +180,10 @@ func c17Judge(mw, l int, m mocrelay.ClientMsg) (verdict int, rel string) {
 		}
 	case C17MaxSubIDLength:
 		if isSub {
+			if r := utf8.RuneCountInString(sub); r <= l && l < len(sub) {
+				// the statement says "subscription-id length" and does not fix the unit
+				return c17Unclaimed, "subscription id within the limit counted in characters, over it counted in bytes"
+			}
 			return bool2(len(sub) > l, "len(subid) "+c17Cmp(len(sub), l)+" limit")
 		}
 	case C17MaxEventTags:
@@ -290,8 +295,10 @@ func C17ProbeSizes(mw, l, kind int) int {
 	switch kind {
 	case C17Req, C17Count:
 		switch mw {
-		case C17MaxReqFilters, C17MaxSubIDLength:
+		case C17MaxReqFilters:
 			return l + 3 // 0..l+2
+		case C17MaxSubIDLength:
+			return l + 3 + l + 2 // ASCII ids of 0..l+2 bytes, then ids of 1..l+2 two-byte characters
 		case C17MaxLimit:
 			return l + 8
 		}
@@ -329,6 +336,13 @@ func c17Probe(mw, l, kind, size, which int) mocrelay.ClientMsg {
 		case C17MaxReqFilters:
 			return c17Sub(kind, p, c17Filters(size, nil))
 		case C17MaxSubIDLength:
+			if size >= l+3 {
+				ch := "\u00e9"
+				if which == 1 {
+					ch = "\u00fc"
+				}
+				return c17Sub(kind, strings.Repeat(ch, size-(l+3)+1), c17Filters(1, nil))
+			}
 			return c17Sub(kind, strings.Repeat(p, size), c17Filters(1, nil))
 		case C17MaxLimit:
 			lim := func(vs ...int) []*mocrelay.ReqFilter { // -1 = absent
